@@ -255,8 +255,32 @@ func (c *Check) respondRules(prefix string) {
 		}
 		if len(earns) == 1 {
 			// the matched provider: the responder, or the request's own provider it was checked to equal
-			okProv := earnEv != nil && len(earnEv.CI.args) >= 3 && (earnEv.CI.args[1].String() == prov || earnEv.CI.args[1].String() == "(.Request.Provider "+R+")")
-			if !okProv || earnEv.CI.args[2].String() != "(.Request.ServiceFee "+R+")" {
+			// the earn function's provider and fee parameters are found by type (it may take further arguments, e.g. the request id for an event)
+			var pArg, fArg *Term
+			if earnEv != nil && earnEv.CI.fn != nil {
+				nA, nC := 0, 0
+				for i, pr := range earnEv.CI.fn.Params {
+					if i >= len(earnEv.CI.args) {
+						break
+					}
+					switch typeName(pr.Type()) {
+					case "sdk.AccAddress":
+						nA++
+						pArg = earnEv.CI.args[i]
+					case "sdk.Coins":
+						nC++
+						fArg = earnEv.CI.args[i]
+					}
+				}
+				if nA != 1 || nC != 1 {
+					pArg, fArg = nil, nil
+				}
+			}
+			if pArg == nil && earnEv != nil && len(earnEv.CI.args) >= 3 {
+				pArg, fArg = earnEv.CI.args[1], earnEv.CI.args[2]
+			}
+			okProv := pArg != nil && (pArg.String() == prov || pArg.String() == "(.Request.Provider "+R+")")
+			if !okProv || fArg == nil || fArg.String() != "(.Request.ServiceFee "+R+")" {
 				got := "-"
 				if earnEv != nil {
 					got = fmtTerms(earnEv.CI.args)
@@ -627,6 +651,10 @@ func (c *Check) withdrawRules(prefix string) {
 							}
 						}
 					}
+				}
+				if !okSet && len(del19) == 0 && len(set19) == 0 && amountZeroOnPath(af, parseTerm(E)) {
+					// the provider earned nothing: total − 0 is the total already stored, nothing to write
+					okSet = true
 				}
 				if !okSet || len(del19) != 0 {
 					add("owner-adjust", "owner total is not reduced by exactly the paid earnings (total − earned)", pa)
